@@ -45,6 +45,55 @@ func NewEngine(P *Program, S *Specs) *Engine {
 		funcIDs: map[string]int{}, loopsOf: map[*ssa.Function]*loopInfo{}, MaxInline: 6}
 	E.typeByID = append(E.typeByID, nil)
 	E.scanGlobals()
+	E.specFuncs["cnt"] = func(ev *Env, e *ECall) Value {
+		// cnt(s, c, lo, hi): number of indices k in [lo,hi) with s[k] == c
+		if len(e.Args) != 4 {
+			ev.errf("cnt(slice, byte, lo, hi)")
+		}
+		s := ev.eval(e.Args[0])
+		c := ev.evalI(e.Args[1])
+		lo := ev.evalI(e.Args[2])
+		hi := ev.evalI(e.Args[3])
+		if s.Kind != KSlice || elemSize(s) != 1 {
+			ev.errf("cnt: byte slice expected")
+		}
+		fx := ev.fr.fx
+		el := under(s.Typ).(*types.Slice).Elem()
+		fx.enc.usesCnt = true
+		arr := fx.heapOf(ev.cur, "M."+typeKey(el))
+		a, h := Add(s.T, lo), Add(s.T, hi)
+		t := app("cntA", arr, c, a, h)
+		if fx.enc.quiet == 0 {
+			if fx.enc.cntSeen == nil {
+				fx.enc.cntSeen = map[string]bool{}
+			}
+			if !fx.enc.cntSeen[t] {
+				fx.enc.cntSeen[t] = true
+				// one-step unfolding of the recursive definition at h
+				prev := app("cntA", arr, c, a, Sub(h, "1"))
+				fx.enc.Assume(Eq(t, Ite(Le(h, a), "0", Add(prev, Ite(Eq(Select(arr, Sub(h, "1")), c), "1", "0")))))
+			}
+		}
+		return IntV(t, tInt)
+	}
+	for name, cls := range map[string]string{"digitEnd": "1", "alphaEnd": "2", "hexEnd": "3", "wsEnd": "4"} {
+		cls := cls
+		name := name
+		E.specFuncs[name] = func(ev *Env, e *ECall) Value {
+			if len(e.Args) != 2 {
+				ev.errf("%s(slice, index)", name)
+			}
+			s := ev.eval(e.Args[0])
+			i := ev.evalI(e.Args[1])
+			if s.Kind != KSlice || elemSize(s) != 1 {
+				ev.errf("%s: byte slice expected", name)
+			}
+			el := under(s.Typ).(*types.Slice).Elem()
+			ev.fr.fx.enc.usesRunEnd = true
+			arr := ev.fr.fx.heapOf(ev.cur, "M."+typeKey(el))
+			return IntV(Sub(app("runEnd", cls, arr, Add(s.T, i), Add(s.T, s.Len)), s.T), tInt)
+		}
+	}
 	return E
 }
 
@@ -729,7 +778,7 @@ func (fx *fx) loadGlobal(st *State, g *ssa.Global) Value {
 		if gf := fx.E.globalLit[g]; gf != nil {
 			switch v.Kind {
 			case KSlice:
-				fx.enc.Assume(And(Eq(v.Len, Num(gf.n)), Eq(v.Cap, Num(gf.n)), Gt(v.T, "0")))
+				fx.enc.Assume(And(Eq(v.Len, Num(gf.n)), Eq(v.Cap, Num(gf.n)), Gt(v.T, "0"), Le(Add(v.T, v.Cap), fx.brk0)))
 				if gf.elems != nil && gf.n <= 512 {
 					el := under(T).(*types.Slice).Elem()
 					fx.globalElems(v.T, el, gf.elems)
